@@ -228,7 +228,7 @@ func (e *Executor) RunTask(ctx context.Context, call *Call) error {
 
 		for i := range t.Cmds {
 			if t.Cmds[i].Defer {
-				defer e.runDeferred(t, call, i, &deferredExitCode)
+				defer e.runDeferred(ctx, t, call, i, &deferredExitCode)
 				continue
 			}
 
@@ -295,8 +295,11 @@ func (e *Executor) runDeps(ctx context.Context, t *ast.Task) error {
 	return g.Wait()
 }
 
-func (e *Executor) runDeferred(t *ast.Task, call *Call, i int, deferredExitCode *uint8) {
-	ctx, cancel := context.WithCancel(context.Background())
+func (e *Executor) runDeferred(ctx context.Context, t *ast.Task, call *Call, i int, deferredExitCode *uint8) {
+	// A deferred command runs whatever became of the context of the task, but
+	// still on behalf of the executions that context stands for: a deferred
+	// call that leads back to one of them must be refused, not waited for
+	ctx, cancel := context.WithCancel(context.WithoutCancel(ctx))
 	defer cancel()
 
 	origTask, err := e.GetTask(call)
